@@ -173,10 +173,10 @@ func fieldAddrOf(v ssa.Value) (base ssa.Value, field string, ok bool) {
 	switch x := v.(type) {
 	case *ssa.FieldAddr:
 		st := x.X.Type().Underlying().(*types.Pointer).Elem().Underlying().(*types.Struct)
-		return x.X, st.Field(x.Field).Name(), true
+		return x.X, fieldName(st.Field(x.Field)), true
 	case *ssa.Field:
 		st := x.X.Type().Underlying().(*types.Struct)
-		return x.X, st.Field(x.Field).Name(), true
+		return x.X, fieldName(st.Field(x.Field)), true
 	}
 	return nil, "", false
 }
@@ -831,4 +831,14 @@ func originThroughChain(v ssa.Value, chain []ssa.CallInstruction) ssa.Value {
 		v = chain[i].Common().Args[idx]
 	}
 	return v
+}
+
+// fieldAlias: a renamed struct field answers to the name it has in the inventory.
+var fieldAlias = map[*types.Var]string{}
+
+func fieldName(v *types.Var) string {
+	if a, ok := fieldAlias[v]; ok {
+		return a
+	}
+	return v.Name()
 }
